@@ -130,6 +130,33 @@ fn check_tree(rep: &Report, cen: &mut Census, ik: &str, shape: &Shape, leaves_t:
                 .map(|l| (l.depth(), l.script().as_bytes().to_vec(), l.control_block().serialize(), { use bitcoin::hashes::Hash; l.leaf_hash().to_byte_array().to_vec() }))
                 .collect();
             let tl: Vec<(u8, Vec<u8>)> = tr.leaves().map(|l| (l.depth(), l.miniscript().encode().into_bytes())).collect();
+            // the item accessors agree with each other (script / hash / version / owned control block)
+            let mut accessor_mismatch: Option<String> = None;
+            for (a, b) in si.leaves().zip(tr.leaves()) {
+                use bitcoin::hashes::Hash;
+                if a.miniscript().encode() != *a.script() || a.miniscript() != b.miniscript() {
+                    accessor_mismatch = Some("spend-info leaf miniscript() / script() / tree leaf disagree".into());
+                }
+                if b.compute_script() != *a.script() || b.compute_tap_leaf_hash() != a.leaf_hash() {
+                    accessor_mismatch = Some("TapTree leaf compute_script / compute_tap_leaf_hash differ from the spend info".into());
+                }
+                if a.leaf_hash().to_byte_array() != crate::rsm::tapleaf_hash(0xc0, a.script().as_bytes()) {
+                    accessor_mismatch = Some("leaf_hash() is not the BIP341 leaf hash of script()".into());
+                }
+                if a.leaf_version() != b.leaf_version() || a.leaf_version() != bitcoin::taproot::LeafVersion::TapScript {
+                    accessor_mismatch = Some("leaf_version differs".into());
+                }
+                let cb = a.control_block().clone();
+                if a.into_control_block() != cb {
+                    accessor_mismatch = Some("into_control_block differs from control_block()".into());
+                }
+            }
+            if si.leaves().count() != tr.leaves().count() {
+                accessor_mismatch = Some("spend-info leaves and tree leaves differ in number".into());
+            }
+            if let Some(m) = accessor_mismatch {
+                panic!("ACCESSOR: {}", m);
+            }
             (
                 si.merkle_root().map(|h| { use bitcoin::hashes::Hash; h.to_byte_array().to_vec() }),
                 si.output_key().serialize().to_vec(),
